@@ -57,6 +57,10 @@ func main() {
 						ast.Inspect(x.Body, func(n ast.Node) bool {
 							if sw, ok := n.(*ast.SwitchStmt); ok && sw.Tag != nil && aliasSubject == "" {
 								aliasSubject = types.ExprString(sw.Tag)
+								// the parameter's name carries no meaning: spell it $0
+								if x.Type.Params != nil && len(x.Type.Params.List) > 0 && len(x.Type.Params.List[0].Names) > 0 {
+									aliasSubject = strings.ReplaceAll(aliasSubject, "("+x.Type.Params.List[0].Names[0].Name+")", "($0)")
+								}
 							}
 							return true
 						})
